@@ -19,8 +19,8 @@ Choose ==
   /\ \/ lvl = 0 /\ \E v \in Tools, tr \in CfgTriples : conf' = [vcs |-> v, cfg |-> tr] /\ lvl' = 1
      \/ lvl = 1 /\ \E a \in Tri, b \in Tri, c \in Tri : conf' = conf @@ [fcommit |-> a, ftag |-> b, fpush |-> c] /\ lvl' = 2
      \/ lvl = 2 /\ \E pre \in HookKinds, post \in HookKinds, src \in {"config", "cli"} : conf' = conf @@ [pre |-> pre, post |-> post, hooksrc |-> src] /\ lvl' = 3
-     \/ lvl = 3 /\ \E dirty \in BOOLEAN, allow \in BOOLEAN, tagmsg \in BOOLEAN, remote \in BOOLEAN, dry \in BOOLEAN, fetch \in BOOLEAN, ig \in Extras, un \in Extras :
-                     conf' = conf @@ [dirty |-> dirty, allow |-> allow, tagmsg |-> tagmsg, remote |-> remote, dry |-> dry, fetch |-> fetch, ignore |-> ig, unique |-> un] /\ lvl' = 4
+     \/ lvl = 3 /\ \E dirty \in BOOLEAN, dirtypat \in BOOLEAN, allow \in BOOLEAN, tagmsg \in BOOLEAN, remote \in BOOLEAN, dry \in BOOLEAN, fetch \in BOOLEAN, ig \in Extras, un \in Extras :
+                     conf' = conf @@ [dirty |-> dirty, dirtypat |-> dirtypat, allow |-> allow, tagmsg |-> tagmsg, remote |-> remote, dry |-> dry, fetch |-> fetch, ignore |-> ig, unique |-> un] /\ lvl' = 4
      \/ lvl = 4 /\ \E f \in Failable : conf' = conf @@ [failat |-> f] /\ lvl' = 5
   /\ pc' = IF lvl' = 5 THEN "merge" ELSE "choose"
   /\ UNCHANGED <<log, exit, filesChanged>>
